@@ -305,7 +305,85 @@ def bounded(tier, seed, procs):
             cause = "singular-accepted" if (det == 0 and r[0] == "val") else "other"
             b2.fail(Failure("affine-solver", f"cause={cause} A={A} B={B} c={c} perm={perm} why={why}", dict(kind="solve", A=A, B=B, c=c, perm=perm), expected="exact solution or refusal", actual=why,
                             functions=["solve_affine_equations_for", "gaussian_elimination"]))
-    return [b, b_sub, b2]
+    return [b, b_sub, b2, b_solver_shapes(tier, seed)]
+
+
+def b_solver_shapes(tier, seed):
+    """Systems that are not square: more equations than unknowns (consistent: redundant rows; inconsistent), fewer equations than unknowns."""
+    import pymbolic.primitives as p
+    from pymbolic.algorithm import solve_affine_equations_for
+    from pymbolic.mapper.evaluator import EvaluationMapper
+    b = BoundedRun("affine-solver-shapes", rule="from a uniquely and integrally solvable square system (1..3 unknowns, 0..1 parameters, solution chosen first): (a) with 1-2 added equations that "
+                   "are integer combinations of its rows, inserted at random positions: accepted and every equation holds; (b) with an added combination whose constant is off by a "
+                   "non-zero amount (inconsistent): must raise; (c) with one equation removed (fewer equations than unknowns): must raise",
+                   bound="300 (quick) / 1200 base systems x 3 shapes", functions=["solve_affine_equations_for", "gaussian_elimination"])
+    rnd = random.Random(seed + 17)
+    names = ["u", "v", "w"]
+    n_ = p.Variable("n")
+    made = 0
+    while made < (1200 if tier == "thorough" else 300):
+        nu = rnd.choice([1, 2, 2, 3])
+        npar = rnd.choice([0, 1])
+        A = [[rnd.randint(-2, 2) for _ in range(nu)] for _ in range(nu)]
+        if _det(A) == 0:
+            continue
+        made += 1
+        sol = [[rnd.randint(-2, 2) for _ in range(npar + 1)] for _ in range(nu)]
+        rows = []
+        for i in range(nu):
+            coeff_n = sum(A[i][j] * sol[j][0] for j in range(nu)) if npar else 0
+            const = sum(A[i][j] * sol[j][npar] for j in range(nu))
+            rows.append((A[i], coeff_n, const))
+        us = [p.Variable(q) for q in names[:nu]]
+
+        def eq_of(row):
+            a, cn, c0 = row
+            return (p.flattened_sum([a[j] * us[j] for j in range(nu)]), p.flattened_sum([cn * n_, c0]))
+
+        def combo(offset=0):
+            ks = [rnd.randint(-2, 2) for _ in range(nu)]
+            if not any(ks):
+                ks[0] = 1
+            return ([sum(ks[i] * rows[i][0][j] for i in range(nu)) for j in range(nu)], sum(ks[i] * rows[i][1] for i in range(nu)), sum(ks[i] * rows[i][2] for i in range(nu)) + offset)
+        shapes = []
+        extra = [combo() for _ in range(rnd.choice([1, 2]))]
+        sys_a = rows + extra
+        rnd.shuffle(sys_a)
+        shapes.append(("redundant", sys_a, True))
+        sys_b = rows + [combo(rnd.choice([-2, -1, 1, 3]))]
+        rnd.shuffle(sys_b)
+        shapes.append(("inconsistent", sys_b, False))
+        if nu >= 2:
+            k = rnd.randrange(nu)
+            shapes.append(("underdetermined", rows[:k] + rows[k + 1:], False))
+        for sname, system, solvable in shapes:
+            eqs = [eq_of(r_) for r_ in system]
+            r = outcome.run(lambda: solve_affine_equations_for(names[:nu], eqs))
+            b.case((made, sname), sample=dict(shape=sname, unknowns=nu, equations=len(eqs)))
+            why, cause = None, "other"
+            if solvable:
+                if r[0] != "val":
+                    why = f"consistent system with redundant equations rejected: {outcome.describe(r)[:100]}"
+                else:
+                    for vn in (0, 1, -2, 5):
+                        env = dict(n=Fraction(vn))
+                        try:
+                            full = dict(env, **{u_.name: EvaluationMapper(env)(r[1][u_]) for u_ in us})
+                        except KeyError as e:
+                            why = f"unknown {e} missing from the result"
+                            break
+                        bad = [str(l_) + " = " + str(r_) for l_, r_ in eqs if EvaluationMapper(full)(l_) != EvaluationMapper(full)(r_)]
+                        if bad:
+                            why = f"equation {bad[0]} violated by {r[1]} at n={vn}"
+                            break
+            elif r[0] == "val":
+                why = f"{sname} system accepted: {r[1]}"
+                cause = f"{sname}-accepted"
+            if why:
+                b.fail(Failure("affine-solver-shapes", f"cause={cause} shape={sname} unknowns={nu} equations={[(str(l_), str(r_)) for l_, r_ in eqs]} why={why[:120]}",
+                               dict(kind="solve-shape", shape=sname, index=made), expected="every equation holds / refusal", actual=why[:200],
+                               functions=["solve_affine_equations_for", "gaussian_elimination"]))
+    return b
 
 
 def _det(A):
